@@ -85,6 +85,27 @@ Theorem C16_complete_tick : forall s, m_chk (mgr s) = true -> m_state (mgr s) = 
 Proof. exact complete_tick. Qed.
 Print Assumptions C16_complete_tick.
 
+(* ---- the old sessions stay usable until the old server lets go.  Outside hotRestartState — in
+   particular after the manager's checker declared the hand-over done — the checker is NOT running (its
+   completion case returns), and no step other than the first event of a NEW hot restart removes or closes
+   a parked pool: a parked session can only die by itself (the old server closing it). *)
+Theorem C16_old_sessions_survive_done : forall hs evs ev i c, Forall (fun h => h = true) hs ->
+  let s := run evs (init_hs hs) in
+  m_state (mgr s) <> st_hr -> (forall j ok, ev <> DeliverRestart j ok) ->
+  nth_error (m_reserve (mgr s)) i = Some (Some c) ->
+  m_chk (mgr s) = false /\
+  exists c', nth_error (m_reserve (mgr (step s ev))) i = Some (Some c') /\ (c' = c \/ c' = kill_self c).
+Proof. exact old_sessions_survive. Qed.
+Print Assumptions C16_old_sessions_survive_done.
+
+(* the completion case of the manager's tick ends the checker and keeps every parked pool *)
+Theorem C16_manager_done_returns : forall s, m_chk (mgr s) = true ->
+  count_some (m_reserve (mgr s)) = length (m_pools (mgr s)) ->
+  m_chk (mgr (step s ManagerTick)) = false /\ m_state (mgr (step s ManagerTick)) = st_default /\
+  m_reserve (mgr (step s ManagerTick)) = m_reserve (mgr s) /\ m_pools (mgr (step s ManagerTick)) = m_pools (mgr s).
+Proof. exact manager_done_returns. Qed.
+Print Assumptions C16_manager_done_returns.
+
 (* ---- C16_available: at every step GetStream on any pool succeeds unless that pool's current session
    died by itself (the manager never closes a current session) *)
 Theorem C16_available : forall n evs k,
